@@ -149,3 +149,137 @@ Proof.
     assert (In k (map fst ps)) by (change k with (fst (k, l)); now apply in_map).
     specialize (Hx k H). rewrite lex_cmp_refl in Hx. discriminate.
 Qed.
+
+(* ---------------------------------------------------------------- one backup pass, per key *)
+Lemma shown_vers prefix since rts banned e : shown prefix since rts banned e = true ->
+  since <= e_ver e /\ e_ver e <= rts /\ (since = 0 \/ since < e_ver e).
+Proof.
+  unfold shown, skip_common. intros H. apply andb_true_iff in H. destruct H as [_ H].
+  apply negb_true_iff in H. rewrite !orb_false_iff in H. destruct H as [[[_ H1] H2] _].
+  apply N.ltb_ge in H1. cbn [io_since stream_io] in H2.
+  destruct (0 <? since) eqn:E0; cbn [andb] in H2.
+  - apply N.leb_gt in H2. lia.
+  - apply N.ltb_ge in E0. lia.
+Qed.
+
+Lemma desc_of_sorted k l : StronglySorted ent_lt l -> Forall (fun e => key_is k e = true) l ->
+  StronglySorted desc l.
+Proof.
+  induction 1 as [|e r Hs IH Hx]; intros Hk; constructor.
+  - apply IH. now inversion Hk.
+  - inversion Hk as [|? ? Hke Hk']; subst. rewrite Forall_forall in *. intros y Hy.
+    unfold desc. apply ent_lt_same_key; auto.
+    apply key_is_true in Hke. specialize (Hk' y Hy). apply key_is_true in Hk'. congruence.
+Qed.
+
+Lemma filter_key_is_all k V : Forall (fun e => key_is k e = true) (filter (key_is k) V).
+Proof. apply Forall_forall. intros e He. apply filter_In in He. tauto. Qed.
+
+Section BackupPass.
+  Variable since now : N.
+  Variable banned : bytes -> bool.
+  Variable r : N.
+  Variable m : src.
+  Hypothesis Hm : view_ok m.
+  Hypothesis Hne : no_empty_key m.
+
+  Let V := shown_items [] since r banned m.
+  Definition backup_pass : list entry :=
+    concat (produce_range [] since now banned (KBackup since) all_keys r m ([], [])).
+
+  (* what the backup writes for key k: the shown versions of k down to the first marker *)
+  Theorem backup_per_key k :
+    filter (key_is k) backup_pass = expand now (cut (marker now) (filter (key_is k) V)).
+  Proof.
+    unfold backup_pass.
+    destruct (pass_key_once [] since now banned (KBackup since) all_keys r m Hm Hne) as (ps & Hout & Hsort & Hiff).
+    fold V in Hiff. rewrite Hout.
+    assert (Hkeys: forall k' l', In (k', l') ps -> Forall (fun x => e_key x = k') l').
+    { intros k' l' Hin. apply Hiff in Hin. destruct Hin as (e & vs & _ & _ & Hf & _).
+      exact (ktl_keys _ _ _ _ _ Hf). }
+    set (vs := filter (key_is k) V).
+    assert (Hvk: Forall (fun e => key_is k e = true) vs) by apply filter_key_is_all.
+    assert (Hvs: Forall (fun e => since <= e_ver e) vs).
+    { apply Forall_forall. intros e He. apply filter_In in He. destruct He as (He & _).
+      apply filter_In in He. destruct He as (_ & He). apply shown_vers in He. tauto. }
+    destruct vs as [|e vs'] eqn:Evs.
+    - cbn. apply filter_concat_other; auto.
+      intros l Hin. apply Hiff in Hin. destruct Hin as (e & vs' & Hf & _). fold vs in Hf. congruence.
+    - apply filter_concat_pair; auto. apply Hiff. exists e, vs'. fold vs. rewrite Evs. repeat split; auto.
+      + cbn [key_to_list]. apply bk_list_expand; auto.
+      + apply expand_nonempty. discriminate.
+  Qed.
+End BackupPass.
+
+(* ---------------------------------------------------------------- reads on the loaded KVs *)
+Lemma deleted_or_expired_bk nowb e now : deleted_or_expired (bk_entry nowb e) now = deleted_or_expired e now.
+Proof. reflexivity. Qed.
+
+Lemma bk_entry_live nowb now e : nowb <= now -> deleted_or_expired e now = false -> bk_entry nowb e = e.
+Proof.
+  intros Hle Hd. unfold bk_entry.
+  destruct (deleted_or_expired e nowb) eqn:E.
+  - rewrite (deleted_or_expired_mono e nowb now Hle E) in Hd. discriminate.
+  - now destruct e.
+Qed.
+
+Lemma synth_deleted e now : deleted_or_expired (synth_delete e) now = true.
+Proof. reflexivity. Qed.
+
+Lemma ver_pred_lt v : 0 < v -> ver_pred v < v.
+Proof. intros H. unfold ver_pred. destruct (v =? 0) eqn:E; [apply N.eqb_eq in E; lia|lia]. Qed.
+
+Lemma expand_cut_vers nowb v vs :
+  Forall (fun y => e_ver y < v) vs -> Forall (fun y => 0 < e_ver y) vs ->
+  Forall (fun y => e_ver y < v) (expand nowb (cut (marker nowb) vs)).
+Proof.
+  induction vs as [|e vs IH]; intros H1 H2; [constructor|].
+  inversion H1 as [|? ? He H1']; subst. inversion H2 as [|? ? Hp H2']; subst.
+  cbn [cut]. destruct (marker nowb e).
+  - unfold expand. cbn [flat_map]. rewrite app_nil_r. constructor; [exact He|].
+    destruct (has_discard e); constructor; auto. cbn. pose proof (ver_pred_lt _ Hp). lia.
+  - unfold expand. cbn [flat_map]. constructor; [exact He|].
+    apply Forall_app. split; [|apply IH; auto].
+    destruct (has_discard e); constructor; auto. cbn. pose proof (ver_pred_lt _ Hp). lia.
+Qed.
+
+Lemma cut_vers {A} (P : A -> Prop) p (vs : list A) : Forall P vs -> Forall P (cut p vs).
+Proof. induction 1 as [|e vs He _ IH]; cbn [cut]; [constructor|]. destruct (p e); repeat constructor; auto. Qed.
+
+Lemma vis_expand_cut nowb now k ts vs : nowb <= now ->
+  Forall (fun e => key_is k e = true) vs -> StronglySorted desc vs -> Forall (fun y => 0 < e_ver y) vs ->
+  vis (expand nowb (cut (marker nowb) vs)) k ts now = vis (cut (marker nowb) vs) k ts now.
+Proof.
+  intros Hle Hk Hs. induction Hs as [|e vs Hs IH Hx]; intros Hp; [reflexivity|].
+  inversion Hk as [|? ? Hke Hk']; subst. inversion Hp as [|? ? Hpe Hp']; subst.
+  unfold key_is in Hke.
+  assert (Hlive: forall x : unit, (if deleted_or_expired (bk_entry nowb e) now then None else Some (bk_entry nowb e))
+                            = if deleted_or_expired e now then @None entry else Some e).
+  { intros _. rewrite deleted_or_expired_bk. destruct (deleted_or_expired e now) eqn:E; auto.
+    now rewrite (bk_entry_live nowb now e Hle E). }
+  cbn [cut]. destruct (marker nowb e) eqn:Em.
+  - (* the marker ends the retained versions *)
+    unfold expand. cbn [flat_map]. rewrite app_nil_r. unfold vis. cbn [spec_latest].
+    replace (e_key (bk_entry nowb e)) with (e_key e) by reflexivity.
+    replace (e_ver (bk_entry nowb e)) with (e_ver e) by reflexivity.
+    rewrite Hke. cbn [andb].
+    destruct (e_ver e <=? ts) eqn:Ev.
+    + rewrite spec_latest_stays.
+      * apply (Hlive tt).
+      * destruct (has_discard e); constructor; auto. cbn. pose proof (ver_pred_lt _ Hpe). lia.
+    + destruct (has_discard e); [|reflexivity]. cbn [spec_latest].
+      destruct (bytes_eqb (e_key (synth_delete e)) k && (e_ver (synth_delete e) <=? ts)); reflexivity.
+  - unfold expand. cbn [flat_map]. fold (expand nowb (cut (marker nowb) vs)).
+    assert (Ed: has_discard e = false).
+    { unfold marker in Em. apply orb_false_iff in Em. tauto. }
+    rewrite Ed. cbn [app]. unfold vis. cbn [spec_latest].
+    replace (e_key (bk_entry nowb e)) with (e_key e) by reflexivity.
+    replace (e_ver (bk_entry nowb e)) with (e_ver e) by reflexivity.
+    rewrite Hke. cbn [andb].
+    destruct (e_ver e <=? ts) eqn:Ev.
+    + rewrite !spec_latest_stays.
+      * apply (Hlive tt).
+      * apply cut_vers. exact Hx.
+      * apply expand_cut_vers; auto.
+    + exact (IH Hk' Hp').
+Qed.
